@@ -20,7 +20,7 @@ LEVEL_TEXT = ("Bounded symbolic model checking: one (two) reference fields of a 
               "z3 decides for every value whether a memory fault, unbounded recursion, hang or exception is reachable.")
 LEVEL_NOTE = "Small graphs; K<=2 simultaneous corruptions; engine models as DESIGN.md 2.5."
 
-GRAPHS_Q = c04.GRAPHS_Q[:2] + [c04.GRAPHS_Q[3]]
+GRAPHS_Q = [(SSE, SKIN | COLL | EXTRA | LOOSE), (SK, SKIN | CTRL | SHAPE2 | CHILDNODE), (OB, SKIN | COLL | CTRL)]
 
 
 def jobs(tier, seed):
